@@ -391,6 +391,7 @@ func TestVerifE2E(t *testing.T) {
 		if cn.Procs > 0 {
 			runtime.GOMAXPROCS(cn.Procs)
 		}
+		tDial := time.Now()
 		conn, err := dial()
 		if err != nil {
 			enc.Encode(map[string]interface{}{"ev": "e2e-error", "err": err.Error(), "log": lb.String()})
@@ -592,12 +593,13 @@ func TestVerifE2E(t *testing.T) {
 		}
 		wg.Wait()
 		time.Sleep(time.Duration(cn.SettleMs+100) * time.Millisecond)
+		streamMs := time.Since(tDial).Milliseconds() // upper bound of the connection's processing time so far
 		if !cn.NoClose {
 			conn.Close()
 			time.Sleep(150 * time.Millisecond)
 		}
 		replyMu.Lock()
-		enc.Encode(map[string]interface{}{"ev": "e2e-conn-done", "conn": ci, "files": veList(out),
+		enc.Encode(map[string]interface{}{"ev": "e2e-conn-done", "conn": ci, "stream_ms": streamMs, "files": veList(out),
 			"constant": veList(filepath.Join(out, "constant-recordings"))})
 		replyMu.Unlock()
 	}
@@ -607,7 +609,7 @@ func TestVerifE2E(t *testing.T) {
 	logtxt := lb.String()
 	enc.Encode(map[string]interface{}{"ev": "e2e-end", "bus": calls,
 		"clears": strings.Count(logtxt, "clearing motion buffer"), "badframes": strings.Count(logtxt, "bad frame detec"),
-		"ended": strings.Count(logtxt, "camera connection ended with"), "logtail": tailStr(logtxt, 1500)})
+		"ended": strings.Count(logtxt, "camera connection ended with"), "logtail": tailStr(logtxt, 1500+len(os.Getenv("VERIF_FULLLOG"))*100000)})
 }
 
 // veDrain waits until the peer has consumed everything written to the unix
